@@ -58,6 +58,14 @@ def mutations(rng, hexs, n):
             if rng.random() < 0.3:
                 m = m[: max(1, L - rng.randrange(1, 9))]
         out.append(bytes(m).hex())
+    # runs of bytes that are not text (whole fields overwritten): long runs matter for length-limited text fields
+    for _ in range(max(4, n // 10)):
+        m = bytearray(b)
+        i = rng.randrange(L)
+        k = min(L - i, rng.choice([1, 2, 3, 16, 300, 5000, 22000, 30000, 65535]))
+        fill = rng.choice([0xFF, 0x80, 0xC3, 0xE2, 0xF0])
+        m[i:i + k] = bytes([fill]) * k
+        out.append(bytes(m).hex())
     return out
 
 
@@ -100,7 +108,7 @@ def run(tier, replay=None):
                     m[i] = v
                     recs.append({"type": d["type"], "hex": bytes(m).hex()})
                     expect.append(None)
-        for h in mutations(rng, d["hex"], nmut):
+        for h in mutations(rng, d["hex"], nmut if not d.get("big") else max(40, nmut // 6)):
             recs.append({"type": d["type"], "hex": h})
             expect.append(None)
     stats = {}
